@@ -75,11 +75,8 @@ def work(chunk, points=None, tier='quick', quick_slice=0):
                 acc.case(case, nontrivial=False, outcome=res['status'])
                 return   # exceptions are C01's verdict
             # (b) record self-consistency, once per call
-            cid = id(res)
-            if cid not in seen_calls:
-                seen_calls.add(cid)
-                if len(seen_calls) > 64:
-                    seen_calls.clear()
+            if not res.get('_record_checked'):
+                res['_record_checked'] = True
                 xx = comb.x if form == 'scalar' else res.get('x_arr')
                 if form == 'scalar':
                     with np.errstate(all='ignore'):
